@@ -1243,3 +1243,60 @@ func (c *Ctx) acceptHelpers(pr *ParserRoles) []*ssa.Function {
 	c.roles["accepthelpers"] = out
 	return out
 }
+
+// TOK-IMMUTABLE (C09/C16/C06): the parser packages never edit a token they got from the lexer.
+func ruleTOKIMMUTABLE(c *Ctx, r *Report) {
+	const rule = "TOK-IMMUTABLE"
+	r.doc(rule, "outside package lex no field of a lex.Token is stored to, except in the composite literals of the two documented synthetic tokens: the type and text the lexer assigned (keyword or term, by case-insensitive spelling) are what the parser and the reducers see — a token is never re-typed by context")
+	n := 0
+	for _, f := range c.Funcs {
+		p := fnPkgPath(f)
+		if p != pkgRoot && p != pkgReduce {
+			continue
+		}
+		for _, b := range f.Blocks {
+			for _, in := range b.Instrs {
+				st, ok := in.(*ssa.Store)
+				if !ok {
+					continue
+				}
+				fa, ok := st.Addr.(*ssa.FieldAddr)
+				if !ok {
+					continue
+				}
+				bt := fa.X.Type()
+				if pt, ok := bt.(*types.Pointer); ok {
+					bt = pt.Elem()
+				}
+				if !isNamed(bt, pkgLex, "Token") {
+					continue
+				}
+				n++
+				fresh := false
+				if a, ok := fa.X.(*ssa.Alloc); ok {
+					fresh = true
+					for _, ref := range *a.Referrers() {
+						if s2, ok := ref.(*ssa.Store); ok && s2.Addr == ssa.Value(a) {
+							fresh = false // a copy of an existing token
+						}
+					}
+				}
+				if ia, ok := fa.X.(*ssa.IndexAddr); ok {
+					// element of a fresh literal array ([]lex.Token{{Typ: TStart}})
+					if a, ok := ia.X.(*ssa.Alloc); ok {
+						if _, isArr := a.Type().Underlying().(*types.Pointer).Elem().Underlying().(*types.Array); isArr {
+							fresh = true
+						}
+					}
+				}
+				key := fnName(f) + "|" + fieldName(fa.X.Type(), fa.Field) + "←" + c.key(st.Val, nil)
+				if fresh {
+					r.ok(rule, key, c.instrPos(in), "field of a token literal being constructed (NODE-SOURCES checks which literals are allowed)")
+				} else {
+					r.bad(rule, key, c.instrPos(in), fmt.Sprintf("%s changes field %s of a token it received from the lexer to %s: the token is re-typed or re-spelled by context, so the same spelling is an operator in one place and a term in another (and its letter case reaches the tree)", fnName(f), fieldName(fa.X.Type(), fa.Field), c.key(st.Val, nil)))
+				}
+			}
+		}
+	}
+	r.ok(rule, "stores-examined", "-", fmt.Sprintf("%d stores to token fields in the parser packages", n))
+}
